@@ -1741,6 +1741,17 @@ func (r *Run) maybeNilSource(v ssa.Value) (kind, desc string, ok bool) {
 			if strings.HasPrefix(n, "(github.com/vektah/gqlparser/v2/ast.") && strings.HasSuffix(n, ").ForName") {
 				return "P3", "result of " + strings.TrimPrefix(n, "(github.com/vektah/gqlparser/v2/") + " (nil when absent)", true
 			}
+			// a module function with a single pointer result that returns nil on some path
+			// (a search that found nothing): DESIGN §R7 P3 "return nil summary"
+			if d := r.P.declared(sc); d != nil && inModule(d) && d.Blocks != nil && d.Signature.Results().Len() == 1 {
+				if _, isPtr := d.Signature.Results().At(0).Type().Underlying().(*types.Pointer); isPtr {
+					for _, ret := range returnsOf(d) {
+						if vals := retVals(ret); len(vals) == 1 && isNilConst(unwrap(vals[0])) {
+							return "P3", "result of " + fnName(d) + " (returns nil on some path)", true
+						}
+					}
+				}
+			}
 		}
 	case *ssa.UnOp:
 		if x.Op != token.MUL {
